@@ -106,11 +106,15 @@ class VGroup(V):
         return f'Group#{self.uid}({self.builder})'
 
 
+_WORKERS: list = []  # every worker value created by the interpretation in progress (reset by interpret())
+
+
 class VWorker(V):
     def __init__(self, group: VGroup, loops: tuple, node: ast.AST, forked_from: typing.Optional['VWorker'] = None, guards: tuple = ()):
         super().__init__()
         self.group, self.loops, self.node, self.forked_from, self.guards = group, loops, node, forked_from, guards
         group.members.append(self)
+        _WORKERS.append(self)
 
     def __repr__(self):
         return f'Worker#{self.uid}<{self.group!r}>'
@@ -723,8 +727,10 @@ class Roles:
 
 def interpret(prog: core.Program, fn: core.FuncInfo, params: typing.Optional[dict[str, V]] = None) -> Interpreter:
     it = Interpreter(prog, fn, params)
+    del _WORKERS[:]
     try:
         it.run()
     except Incomplete as err:
         it.incomplete.append(str(err))
+    it.workers = list(_WORKERS)
     return it
